@@ -46,7 +46,13 @@ Inductive case :=
 (* DownsampleRaw(data, res) = out, with targetChunkCount(...) = num_chunks;
    rb = what chunkSeries.Iterator yields for COUNT, SUM, MIN, MAX *)
 | CRaw (res : Z) (num_chunks : nat) (data : list rsample) (out : list achunk)
-       (rb : list (list sample)).
+       (rb : list (list sample))
+(* read-back of ONE aggregate with a fault: chunks = what each sub-chunk's own iterator
+   yields before it stops and whether it stopped with an error (one sub-chunk's bytes were
+   truncated); orig = the aggregate's values; rb, rb_err = what chunkSeries.Iterator yields
+   until ValNone, and whether Err() is non-nil afterwards *)
+| CFault (chunks : list (list sample * bool)) (orig : list sample)
+         (rb : list sample) (rb_err : bool).
 
 Definition sample_eqb (a b : sample) : bool := (fst a =? fst b) && (snd a =? snd b).
 Definition samples_eqb : list sample -> list sample -> bool := list_eqb sample_eqb.
@@ -84,11 +90,50 @@ Definition read_funcs : list string :=
 Definition readbacks (out : list achunk) : list (list sample) :=
   map (fun f => readback_func f out) read_funcs.
 
+(* ---- chunkSeriesIterator with chunk iterators that may fail ----
+   A chunk iterator is (samples it yields before ValNone, Err() <> nil afterwards).
+   Next: lastT := cur.AtT(); if cur yields a sample return it; if cur.Err() <> nil stop;
+   if cur is the last chunk stop; otherwise enter the next chunk and Seek(lastT + 1), i.e.
+   call Next until a sample at or after the bound shows up.  [bound] is the pending Seek
+   target (None = plain Next), [curT] = cur.AtT() (0 for a fresh XOR iterator). *)
+Fixpoint read_chunk (rem : list sample) (bound : option Z) (curT : Z)
+  : list sample * option Z * Z :=
+  match rem with
+  | [] => ([], bound, curT)
+  | s :: r =>
+      let skip := match bound with Some x => fst s <? x | None => false end in
+      if skip then read_chunk r bound (fst s)
+      else let '(out, b, t) := read_chunk r None (fst s) in (s :: out, b, t)
+  end.
+
+(* samples handed to the consumer until ValNone, and whether Err() is non-nil then *)
+Fixpoint read_f (chunks : list (list sample * bool)) (bound : option Z) : list sample * bool :=
+  match chunks with
+  | [] => ([], false)
+  | (rem, err) :: rest =>
+      let '(out, b, t) := read_chunk rem bound 0 in
+      if err then (out, true)                       (* it.Err() != nil: stop, error reported *)
+      else match rest with
+           | [] => (out, false)                     (* last chunk exhausted *)
+           | _ :: _ =>
+               let b' := match b with Some x => Z.max x (t + 1) | None => t + 1 end in
+               let '(out', e) := read_f rest (Some b') in (out ++ out', e)
+           end
+  end.
+
+Definition read_faulty (chunks : list (list sample * bool)) : list sample * bool :=
+  match chunks with
+  | [] => ([], true)                                (* newChunkSeriesIterator: "got empty chunks" *)
+  | _ => read_f chunks None
+  end.
+
 Definition corr_ok (c : case) : bool :=
   match c with
   | CRaw res nc data out rb =>
       option_eqb (list_eqb achunk_eqb) (downsample_raw_m res nc data) (Some out)
       && list_eqb samples_eqb (readbacks out) rb
+  | CFault chunks orig rb rb_err =>
+      let '(out, e) := read_faulty chunks in samples_eqb out rb && Bool.eqb e rb_err
   end.
 
 (* ---- the property, evaluated on the implementation's own output ---- *)
@@ -182,6 +227,17 @@ Definition readback_ok (out : list achunk) (rb : list (list sample)) : bool :=
     [ concat (map (fun c => olist (k_count c)) out); concat (map (fun c => olist (k_sum c)) out);
       concat (map (fun c => olist (k_min c)) out); concat (map (fun c => olist (k_max c)) out) ].
 
+(* sub-chunk sample lists are non-empty, strictly increasing in time, and each starts after the
+   previous one ended *)
+Fixpoint chain_ok (prev : option Z) (ls : list (list sample)) : bool :=
+  match ls with
+  | [] => true
+  | l :: r =>
+      negb (Nat.eqb (length l) 0) && strictly_inc (map fst l)
+      && match prev with Some p => forallb (fun s => p <? fst s) l | None => true end
+      && chain_ok (Some (fst (last l (0, 0)))) r
+  end.
+
 Definition pred_ok (c : case) : bool :=
   match c with
   | CRaw res nc data out rb =>
@@ -197,6 +253,16 @@ Definition pred_ok (c : case) : bool :=
         | None => false
         end
       else true
+  (* a fault on the read path, stated on what the sub-chunk iterators themselves report (the
+     XOR decoder is third-party: on truncated bytes it may also return wrong values without an
+     error, which no series iterator can notice): if any sub-chunk iterator stopped with an
+     error the series read reports an error; if none did and what they yield is time-ordered,
+     the read is exactly what they yield, without error — never fewer samples with a nil error *)
+  | CFault chunks orig rb rb_err =>
+      if existsb snd chunks then rb_err
+      else if chain_ok None (map fst chunks) && negb (Nat.eqb (length chunks) 0)
+           then negb rb_err && samples_eqb rb (concat (map fst chunks))
+           else true
   end.
 
 (* ---- specification vocabulary for the theorems (Prop level) ---- *)
